@@ -114,7 +114,10 @@ def run_case(cs):
             fh.write(b"content of the other card" + rng.randbytes(4))
         ro = drive.run("create", [other] + world.fmt_args(sorted({f for w in want.values() for f in w})[:1] or ["md5"]))
         if ro.exit == 0:
-            drive.run("flatten", [other, dest])
+            # explicit cwd: no re-spelling of the root argument here.  (With the root given as "." the tool names the
+            # packing list "packinglist_._<time>.mhl" for *every* card, so two cards flattened within one second
+            # would overwrite each other - the same-second corner the statement is silent about.)
+            drive.run("flatten", [other, dest], cwd=d)
             cs.count("destination_already_used")
     dest_before = snap.snap(dest) if os.path.isdir(dest) else {}
     before = snap.snap(root)
